@@ -243,10 +243,28 @@ def check_C13(ctx):
             exp3 += [1 if member(c) else 0, 2]
         cases.append(Case(len(cases), d3, [(0, inp, None)]))
         expect.append(("context", nm, inp, exp3))
+        # the same class twice in one lexer, once cut off above a mid point: two membership tests whose
+        # range lists are in a prefix relation (both rule orders)
+        if len(orc) >= 2:
+            cut = orc[len(orc) // 2][0]
+            r1 = ('rule', {'re': ('cat', ('char', 0x31), ('builtin', nm)), 'ctx': None, 'kind': 'simple:1'})
+            r2 = ('rule', {'re': ('cat', ('char', 0x32), ('diff', ('builtin', nm), ('set', [(cut, 0x10FFFF)]))),
+                           'ctx': None, 'kind': 'simple:2'})
+            r0 = ('rule', {'re': ('any',), 'ctx': None, 'kind': 'simple:0'})
+            chp = [c for c in (pts[:400] if ctx.tier == "quick" else pts[::71]) if c not in (0x31, 0x32)]
+            tail = [c for c in pts if c >= cut][:200]
+            chp = chp + [c for c in tail if c not in (0x31, 0x32)]
+            for order in ((r1, r2, r0), (r2, r1, r0)):
+                inp4, exp4 = [], []
+                for c in chp:
+                    inp4 += [0x31, c, 0x32, c]
+                    exp4 += ([1] if member(c) else [0, 0]) + ([2] if (member(c) and c < cut) else [0, 0])
+                cases.append(Case(len(cases), list(order), [(0, inp4, None)]))
+                expect.append(("pair", nm, inp4, exp4))
     stats = run_impl(cases, os.path.join(BUILD, "work_C13"), batch_size=4, run_timeout_ms=60000)
     shutil.rmtree(os.path.join(BUILD, "work_C13"), ignore_errors=True)
     nprobe = 0
-    shapes = {"alone": 0, "combined": 0, "context": 0}
+    shapes = {"alone": 0, "combined": 0, "context": 0, "pair": 0}
     for c, (shape, nm, inp, exp) in zip(cases, expect):
         if c.compile_error is not None:
             ctx.violation("compile-error", dict(describe(c), rustc=c.compile_error[-1500:]))
@@ -261,7 +279,7 @@ def check_C13(ctx):
         shapes[shape] += 1
         for j, (a, b) in enumerate(zip(toks, exp)):
             if a != b:
-                cp = inp[j] if shape != "context" else inp[j | 1]
+                cp = inp[j] if shape not in ("context", "pair") else inp[min(j | 1, len(inp) - 1)]
                 ctx.violation("member-differs", {"builtin": nm, "shape": shape, "code_point": cp, "char": "U+%04X" % cp,
                                                  "lexer_says": a, "rust_predicate_says": b,
                                                  "definition": lexdef.rust_lexer(c.name, c.d)})
